@@ -34,7 +34,6 @@ detectors the row is compared with the fields read from the state after the step
 from __future__ import annotations
 
 import itertools
-import math
 from fractions import Fraction
 
 import numpy as np
